@@ -1172,6 +1172,554 @@ example : line ([' '] ++ (['M', 'O', 'V'] ++ ([' '] ++ (regText false 1 ++ (tail
     (by unfold blanks; decide) (by decide) (by decide) (by unfold tailOk blanks; decide) (by unfold blanks; decide) (Or.inr ⟨Or.inl rfl, rfl⟩)
 example : regText false 1 ++ tailText [([' '], [' '], true, 31)] = "r1 , R31".toList := by decide
 
+section Numbers
+open Avra.Lemmas.Fuel
+
+/-! ### whole lines: operands that are numbers -/
+
+/-- a text that `e_const` reads as `n` wherever a token may end (the five spellings of
+    `radix_irrelevant` are such texts) -/
+def NumText (t : Str) (n : Nat) : Prop :=
+  (∃ y ys, t = y :: ys ∧ (isDigit y = true ∨ y = '$')) ∧
+  ∀ rest, endsToken rest → eConst (t ++ rest) = some ((n : Int), rest)
+
+/-- first characters no operand starts with (extends `noOperandStart` by `*`) -/
+def noStart (x : Char) : Prop := x = ';' ∨ x = '/' ∨ x = '*'
+
+theorem prefix_heads' (x : Char) (hx : noStart x) : ∀ y ∈ prefixOps, y.1.head? ≠ some x := by
+  rcases hx with rfl | rfl | rfl <;> decide
+
+theorem eConst_none' (x : Char) (xs : Str) (hx : noStart x) : eConst (x :: xs) = none := by
+  rcases hx with rfl | rfl | rfl <;> simp [eConst, constAlt, lit, takeWhileP, isDigit] <;> decide
+
+theorem atom_not_ok' (x : Char) (xs : Str) (hx : noStart x) : ∀ f e r, parseAtom f (x :: xs) ≠ .ok e r := by
+  intro f e r h
+  have hid : identText (x :: xs) = none := by rcases hx with rfl | rfl | rfl <;> simp [identText] <;> decide
+  have hch : ch (x :: xs) = none := by rcases hx with rfl | rfl | rfl <;> simp [ch]
+  have hpar : x ≠ '(' := by rcases hx with rfl | rfl | rfl <;> decide
+  cases f with
+  | zero => simp [parseAtom] at h
+  | succ f =>
+    simp only [parseAtom, hid, eConst_none' x xs hx, hch] at h
+    split at h
+    · rename_i heq
+      split at heq
+      · rename_i r1 hc
+        simp only [List.cons.injEq] at hc
+        exact hpar hc.1
+      · simp at heq
+    · simp at h
+    · simp at h
+
+theorem tryPrefix_not_ok' (x : Char) (xs : Str) (hx : noStart x) :
+    ∀ (l : List (Str × UnOp × Nat)), (∀ y ∈ l, y.1 ≠ [] ∧ y.1.head? ≠ some x) → ∀ f e r, tryPrefix f l (x :: xs) ≠ .ok e r := by
+  intro l
+  induction l with
+  | nil =>
+    intro _ f e r h
+    cases f with
+    | zero => simp [tryPrefix] at h
+    | succ f => simp only [tryPrefix] at h; exact atom_not_ok' x xs hx f e r h
+  | cons y more ih =>
+    intro hl f e r h
+    obtain ⟨t, u, lv⟩ := y
+    have ht := hl (t, u, lv) (List.mem_cons_self ..)
+    have hlit := lit_head_ne t x xs ht.1 ht.2
+    cases f with
+    | zero => simp [tryPrefix] at h
+    | succ f =>
+      simp only [tryPrefix, hlit] at h
+      exact ih (fun y hy => hl y (List.mem_cons_of_mem _ hy)) f e r h
+
+/-- with enough fuel, an operand that starts with `;`, `/` or `*` is a definite failure -/
+theorem infix_fails (x : Char) (xs : Str) (hx : noStart x) (f : Nat) (hf : (xs.length + 2) * K ≤ f) (m : Nat) :
+    parseInfix f m (x :: xs) = .fail := by
+  have hno : parseInfix f m (x :: xs) ≠ .oof :=
+    (q_all (xs.length + 2) (x :: xs) (by simp) f hf).1 m
+  have hnok : ∀ e r, parseInfix f m (x :: xs) ≠ .ok e r := by
+    intro e r h
+    cases f with
+    | zero => simp [parseInfix] at h
+    | succ f =>
+      simp only [parseInfix] at h
+      split at h
+      · rename_i e1 rest hp
+        cases f with
+        | zero => simp [parsePrefixAtom] at hp
+        | succ f =>
+          simp only [parsePrefixAtom] at hp
+          exact tryPrefix_not_ok' x xs hx prefixOps
+            (fun y hy => ⟨prefix_tokens y hy, prefix_heads' x hx y hy⟩) f e1 rest hp
+      · simp at h
+      · simp at h
+  cases h : parseInfix f m (x :: xs) with
+  | ok e r => exact absurd h (hnok e r)
+  | fail => rfl
+  | oof => exact absurd h hno
+
+/-- prefix operators that do not match fall through to the atoms -/
+theorem tryPrefix_through (s : Str) : ∀ (l : List (Str × UnOp × Nat)), (∀ x ∈ l, lit x.1 s = none) →
+    ∀ f, tryPrefix (f + l.length + 1) l s = parseAtom f s := by
+  intro l
+  induction l with
+  | nil => intro _ f; simp [tryPrefix]
+  | cons x more ih =>
+    intro hl f
+    obtain ⟨t, u, lv⟩ := x
+    have ht : lit t s = none := hl (t, u, lv) (List.mem_cons_self ..)
+    have : f + ((t, u, lv) :: more).length + 1 = (f + more.length + 1) + 1 := by simp only [List.length_cons]; omega
+    rw [this]
+    simp only [tryPrefix, ht]
+    exact ih (fun y hy => hl y (List.mem_cons_of_mem _ hy)) f
+
+theorem numText_head (t : Str) (n : Nat) (h : NumText t n) (rest : Str) :
+    ∃ y ys, t ++ rest = y :: ys ∧ (isDigit y = true ∨ y = '$') := by
+  obtain ⟨⟨y, ys, rfl, hy⟩, _⟩ := h
+  exact ⟨y, ys ++ rest, rfl, hy⟩
+
+theorem prefix_none_num (y : Char) (ys : Str) (hy : isDigit y = true ∨ y = '$') : ∀ x ∈ prefixOps, lit x.1 (y :: ys) = none := by
+  have key : ∀ x ∈ prefixOps, x.1 ≠ [] ∧ ∀ c, x.1.head? = some c → isDigit c = false ∧ c ≠ '$' := by decide
+  intro x hx
+  obtain ⟨hne, hh⟩ := key x hx
+  apply lit_head_ne _ _ _ hne
+  intro hc
+  have := hh y hc
+  rcases hy with h | h
+  · simp [h] at this
+  · exact this.2 h
+
+theorem parseAtom_num (t : Str) (n : Nat) (h : NumText t n) (rest : Str) (hr : endsToken rest) (f : Nat) :
+    parseAtom (f + 1) (t ++ rest) = .ok (.const (n : Int)) rest := by
+  obtain ⟨y, ys, hs, hy⟩ := numText_head t n h rest
+  have hec := h.2 rest hr
+  rw [hs] at hec ⊢
+  have hnid : isIdentStart y = false := by
+    rcases hy with h | rfl
+    · cases hi : isIdentStart y with
+      | false => rfl
+      | true =>
+        exfalso
+        simp only [isIdentStart, isAlpha, Bool.or_eq_true, beq_iff_eq] at hi
+        simp only [isDigit, Bool.and_eq_true, decide_eq_true_eq] at h
+        rcases hi with (hi | hi) | rfl
+        · simp only [Bool.and_eq_true, decide_eq_true_eq] at hi
+          have h1 := hi.1; have h2 := h.2
+          simp only [Char.le_def, UInt32.le_iff_toNat_le] at h1 h2
+          have : 'a'.val.toNat = 97 := by decide
+          have : '9'.val.toNat = 57 := by decide
+          omega
+        · simp only [Bool.and_eq_true, decide_eq_true_eq] at hi
+          have h1 := hi.1; have h2 := h.2
+          simp only [Char.le_def, UInt32.le_iff_toNat_le] at h1 h2
+          have : 'A'.val.toNat = 65 := by decide
+          have : '9'.val.toNat = 57 := by decide
+          omega
+        · revert h; decide
+    · decide
+  have hid : identText (y :: ys) = none := by simp [identText, hnid]
+  have hpar : y ≠ '(' := by
+    rcases hy with h | rfl
+    · intro hc; subst hc; revert h; decide
+    · decide
+  simp only [parseAtom, hid, hec]
+  split
+  · rename_i e r heq
+    split at heq
+    · rename_i r1 hc; simp only [List.cons.injEq] at hc; exact absurd hc.1 hpar
+    · simp at heq
+  · rename_i heq
+    split at heq
+    · rename_i r1 hc; simp only [List.cons.injEq] at hc; exact absurd hc.1 hpar
+    · simp at heq
+  · rfl
+
+/-- the text after an operand, as the infix loop sees it: no operator matches, or the one that
+    does (`/`, the start of a `//` or `/* */` comment) is followed by `/` or `*` -/
+def OpEnd (s : Str) : Prop :=
+  ∀ x ∈ infixOps, lit x.1 (skipSpace s) = none ∨
+    ∃ y ys, lit x.1 (skipSpace s) = some (y :: ys) ∧ noStart y ∧ isSpace y = false
+
+theorem tryInfix_through (m : Nat) (e : Expr) (s0 s : Str) (hs : OpEnd s) :
+    ∀ (l : List (Str × BinOp × Nat × Nat)), (∀ x ∈ l, x ∈ infixOps) →
+      ∀ f, l.length + 1 + (s.length + 1) * K ≤ f → tryInfix f m l e s0 s = .ok e s0 := by
+  intro l
+  induction l with
+  | nil =>
+    intro _ f hf
+    obtain ⟨g, rfl⟩ : ∃ g, f = g + 1 := ⟨f - 1, by simp only [List.length_nil] at hf; omega⟩
+    simp [tryInfix]
+  | cons x more ih =>
+    intro hl f hf
+    obtain ⟨t, b, lv, rlv⟩ := x
+    simp only [List.length_cons] at hf
+    obtain ⟨g, rfl⟩ : ∃ g, f = g + 1 := ⟨f - 1, by omega⟩
+    have hmore := ih (fun y hy => hl y (List.mem_cons_of_mem _ hy)) g (by omega)
+    simp only [tryInfix]
+    split
+    · exact hmore
+    · rcases hs (t, b, lv, rlv) (hl _ (List.mem_cons_self ..)) with hnone | ⟨y, ys, hsome, hy, hsp⟩
+      · simp only [hnone]; exact hmore
+      · simp only [hsome]
+        have hsk : skipSpace (y :: ys) = y :: ys := by simp [skipSpace, hsp]
+        have hlen := lit_len _ _ _ hsome
+        have hsl := skipSpace_len s
+        simp only [List.length_cons] at hlen
+        have hmul : (ys.length + 2) * K ≤ (s.length + 1) * K := Nat.mul_le_mul_right K (by omega)
+        rw [hsk, infix_fails y ys hy g (by omega) rlv]
+        exact hmore
+
+/-- **a number is read as that number**, whatever follows it at the end of an operand -/
+theorem expr_num (t : Str) (n : Nat) (h : NumText t n) (rest : Str) (hr : endsToken rest) (ho : OpEnd rest) :
+    expr (t ++ rest) = .ok (.const (n : Int)) rest := by
+  obtain ⟨y, ys, hs, hy⟩ := numText_head t n h rest
+  have hK : K = prefixOps.length + infixOps.length + 8 := rfl
+  have htl : 1 ≤ t.length := by obtain ⟨⟨y', ys', rfl, _⟩, _⟩ := h; simp
+  have hF : exprFuel (t ++ rest) = (t.length + rest.length + 2) * K := by rw [exprFuel_eq]; simp
+  have hbig : (rest.length + 1) * K + 2 * K ≤ exprFuel (t ++ rest) := by
+    rw [hF]
+    have : (rest.length + 1) * K + 2 * K = (rest.length + 3) * K := by rw [← Nat.add_mul]
+    rw [this]
+    exact Nat.mul_le_mul_right K (by omega)
+  obtain ⟨f, hf⟩ : ∃ f, exprFuel (t ++ rest) = ((f + 1) + prefixOps.length + 1) + 1 + 1 :=
+    ⟨exprFuel (t ++ rest) - prefixOps.length - 4, by omega⟩
+  unfold expr
+  rw [hf]
+  simp only [parseInfix, parsePrefixAtom]
+  have hpn : ∀ x ∈ prefixOps, lit x.1 (t ++ rest) = none := by rw [hs]; exact prefix_none_num y ys hy
+  rw [tryPrefix_through (t ++ rest) prefixOps hpn (f + 1), parseAtom_num t n h rest hr f]
+  simp only [parseLoop]
+  exact tryInfix_through 0 _ rest rest ho infixOps (fun x hx => hx) _ (by omega)
+
+theorem infix_heads : ∀ x ∈ infixOps, x.1 ≠ [] ∧ x.1.head? ≠ some ',' ∧ x.1.head? ≠ some ';' ∧
+    (x.1 = ['/'] ∨ x.1.head? ≠ some '/') := by decide
+
+/-- before a comma no operator matches -/
+theorem opEnd_comma (a rest : Str) (ha : blanks a) : OpEnd (a ++ ',' :: rest) := by
+  intro x hx
+  left
+  rw [space_absorbs a _ ha]
+  have : skipSpace (',' :: rest) = ',' :: rest := by simp +decide [skipSpace]
+  rw [this]
+  obtain ⟨hne, hc, _, _⟩ := infix_heads x hx
+  exact lit_head_ne _ _ _ hne hc
+
+/-- at the end of the line no operator matches, except `/` where a comment starts -/
+theorem opEnd_end (ws2 c : Str) (hws2 : blanks ws2) (hc : lineEnd c) : OpEnd (ws2 ++ c) := by
+  intro x hx
+  rw [skip_tail ws2 c hws2 hc]
+  obtain ⟨hne, _, hsemi, hslash⟩ := infix_heads x hx
+  rcases hc with rfl | ⟨hs, hcom⟩
+  · left
+    cases hx1 : x.1 with
+    | nil => exact absurd hx1 hne
+    | cons p ps => rfl
+  · cases c with
+    | nil => rcases hs with h | h <;> simp at h
+    | cons y ys =>
+      rcases hs with h | h
+      · simp at h; subst h
+        left; exact lit_head_ne _ _ _ hne hsemi
+      · simp at h; subst h
+        rcases hslash with h1 | h1
+        · right
+          rw [h1]
+          -- the comment is // or /*
+          cases ys with
+          | nil => simp [comment] at hcom
+          | cons z zs =>
+            have hz : z = '/' ∨ z = '*' := by
+              by_cases h2 : z = '*'
+              · exact Or.inr h2
+              · by_cases h3 : z = '/'
+                · exact Or.inl h3
+                · exfalso
+                  unfold comment at hcom
+                  split at hcom
+                  · rename_i heq; simp at heq
+                  · rename_i r heq; simp only [List.cons.injEq] at heq; exact h2 heq.2.1
+                  · rename_i heq; simp only [List.cons.injEq] at heq; exact h3 heq.2.1
+                  · simp at hcom
+            refine ⟨z, zs, by simp [lit], ?_, ?_⟩
+            · rcases hz with rfl | rfl
+              · exact Or.inr (Or.inl rfl)
+              · exact Or.inr (Or.inr rfl)
+            · rcases hz with rfl | rfl <;> decide
+        · left; exact lit_head_ne _ _ _ hne h1
+
+/-- an operand: a register or a number -/
+inductive Item
+  | reg (up : Bool) (k : Nat)
+  | num (t : Str) (n : Nat)
+
+def Item.good : Item → Prop
+  | .reg _ k => k < 32
+  | .num t n => NumText t n
+
+def Item.text : Item → Str
+  | .reg up k => regText up k
+  | .num t _ => t
+
+def Item.val : Item → IOp
+  | .reg _ k => .r8 k
+  | .num _ n => .e (.const (n : Int))
+
+/-- what may follow an operand -/
+def AfterItem (rest : Str) : Prop := afterReg rest ∧ endsToken rest ∧ OpEnd rest
+
+theorem item_reads (it : Item) (hg : it.good) (rest : Str) (hr : AfterItem rest) :
+    instructionOps (it.text ++ rest) = .ok it.val rest := by
+  cases it with
+  | reg up k => exact instructionOps_reg up k hg rest hr.1
+  | num t n =>
+    obtain ⟨y, ys, hs, hy⟩ := numText_head t n hg rest
+    have he := expr_num t n hg rest hr.2.1 hr.2.2
+    simp only [Item.text, Item.val]
+    have hm : y ≠ '-' := by
+      rcases hy with h | rfl
+      · intro hc; subst hc; revert h; decide
+      · decide
+    have hr16 : reg16 (y :: ys) = none := by
+      rcases hy with h | rfl
+      · unfold reg16
+        have : ∀ c : Char, isDigit y = true → (y == c) = true → isDigit c = true := by
+          intro c h1 h2; simp only [beq_iff_eq] at h2; subst h2; exact h1
+        have n1 : (y == 'x') = false := by cases hh : y == 'x' with | false => rfl | true => exact absurd (this _ h hh) (by decide)
+        have n2 : (y == 'X') = false := by cases hh : y == 'X' with | false => rfl | true => exact absurd (this _ h hh) (by decide)
+        have n3 : (y == 'y') = false := by cases hh : y == 'y' with | false => rfl | true => exact absurd (this _ h hh) (by decide)
+        have n4 : (y == 'Y') = false := by cases hh : y == 'Y' with | false => rfl | true => exact absurd (this _ h hh) (by decide)
+        have n5 : (y == 'z') = false := by cases hh : y == 'z' with | false => rfl | true => exact absurd (this _ h hh) (by decide)
+        have n6 : (y == 'Z') = false := by cases hh : y == 'Z' with | false => rfl | true => exact absurd (this _ h hh) (by decide)
+        simp [n1, n2, n3, n4, n5, n6]
+      · simp +decide [reg16]
+    have hr8 : reg8 (y :: ys) = none := by
+      rcases hy with h | rfl
+      · unfold reg8
+        have n1 : (y == 'r') = false := by
+          cases hh : y == 'r' with
+          | false => rfl
+          | true => simp only [beq_iff_eq] at hh; subst hh; revert h; decide
+        have n2 : (y == 'R') = false := by
+          cases hh : y == 'R' with
+          | false => rfl
+          | true => simp only [beq_iff_eq] at hh; subst hh; revert h; decide
+        simp [n1, n2]
+      · simp +decide [reg8]
+    have hi : indexOps (y :: ys) = .fail := by
+      unfold indexOps
+      simp only [hr16]
+      split
+      · rename_i v r heq
+        split at heq
+        · rename_i r0 hc2; simp only [List.cons.injEq] at hc2; exact absurd hc2.1 hm
+        · simp at heq
+      · rfl
+    rw [hs] at he ⊢
+    unfold instructionOps
+    simp only [hi, hr8, he]
+
+/-- the operands after the first: blanks, a comma, blanks, an operand — any number of times -/
+def itemsTail : List (Str × Str × Item) → Str
+  | [] => []
+  | (a, b, it) :: more => a ++ ',' :: (b ++ (it.text ++ itemsTail more))
+
+def itemsOk (more : List (Str × Str × Item)) : Prop :=
+  ∀ x ∈ more, blanks x.1 ∧ blanks x.2.1 ∧ x.2.2.good
+
+theorem items_after (more : List (Str × Str × Item)) (hm : itemsOk more) (ws2 c : Str) (hws2 : blanks ws2) (hc : lineEnd c) :
+    AfterItem (itemsTail more ++ (ws2 ++ c)) := by
+  cases more with
+  | nil =>
+    simp only [itemsTail, List.nil_append]
+    refine ⟨?_, ?_, opEnd_end ws2 c hws2 hc⟩
+    · intro y hy
+      have := (tail_head ws2 c hws2 hc y hy).1
+      cases hd : isDigit y with
+      | false => rfl
+      | true => simp [isIdentChar, hd] at this
+    · intro y hy; exact (tail_head ws2 c hws2 hc y hy).1
+  | cons x xs =>
+    obtain ⟨a, b, it⟩ := x
+    have ha : blanks a := (hm _ (List.mem_cons_self ..)).1
+    have hform : itemsTail ((a, b, it) :: xs) ++ (ws2 ++ c) = a ++ ',' :: (b ++ (it.text ++ itemsTail xs) ++ (ws2 ++ c)) := by
+      simp [itemsTail]
+    rw [hform]
+    have hhead : ∀ y, (a ++ ',' :: (b ++ (it.text ++ itemsTail xs) ++ (ws2 ++ c))).head? = some y → isIdentChar y = false := by
+      intro y hy
+      cases a with
+      | nil => simp at hy; subst hy; decide
+      | cons w ws =>
+        simp at hy; subst hy
+        have hw : isSpace w = true := ha w (by simp)
+        simp only [isSpace, Bool.or_eq_true, beq_iff_eq] at hw
+        rcases hw with rfl | rfl <;> decide
+    refine ⟨?_, hhead, opEnd_comma a _ ha⟩
+    intro y hy
+    have := hhead y hy
+    cases hd : isDigit y with
+    | false => rfl
+    | true => simp [isIdentChar, hd] at this
+
+theorem items_len (more : List (Str × Str × Item)) : more.length ≤ (itemsTail more).length := by
+  induction more with
+  | nil => simp
+  | cons x xs ih =>
+    obtain ⟨a, b, it⟩ := x
+    simp only [itemsTail, List.length_cons, List.length_append]
+    omega
+
+theorem skip_item (it : Item) (hg : it.good) (rest : Str) : skipSpace (it.text ++ rest) = it.text ++ rest := by
+  cases it with
+  | reg up k => exact skip_reg up k rest
+  | num t n =>
+    obtain ⟨y, ys, hs, hy⟩ := numText_head t n hg rest
+    simp only [Item.text]
+    rw [hs]
+    have : isSpace y = false := by
+      rcases hy with h | rfl
+      · cases hsp : isSpace y with
+        | false => rfl
+        | true =>
+          simp only [isSpace, Bool.or_eq_true, beq_iff_eq] at hsp
+          rcases hsp with rfl | rfl <;> (revert h; decide)
+      · decide
+    simp [skipSpace, this]
+
+theorem sepTail_items : ∀ (more : List (Str × Str × Item)), itemsOk more → ∀ (ws2 c : Str), blanks ws2 → lineEnd c →
+    ∀ (f : Nat) (acc : List IOp), more.length < f →
+      sepTail instructionOps f acc (itemsTail more ++ (ws2 ++ c)) =
+        .ok (acc.reverse ++ more.map (fun x => x.2.2.val)) (ws2 ++ c) := by
+  intro more
+  induction more with
+  | nil =>
+    intro _ ws2 c hws2 hc f acc hf
+    obtain ⟨g, rfl⟩ : ∃ g, f = g + 1 := ⟨f - 1, by omega⟩
+    simp only [itemsTail, List.nil_append, sepTail, delimiter_end ws2 c hws2 hc, List.map_nil, List.append_nil]
+  | cons x xs ih =>
+    intro hm ws2 c hws2 hc f acc hf
+    obtain ⟨a, b, it⟩ := x
+    obtain ⟨g, rfl⟩ : ∃ g, f = g + 1 := ⟨f - 1, by omega⟩
+    have hx := hm _ (List.mem_cons_self ..)
+    have hxs : itemsOk xs := fun y hy => hm y (List.mem_cons_of_mem _ hy)
+    have hdel : delimiter (itemsTail ((a, b, it) :: xs) ++ (ws2 ++ c)) = some (it.text ++ (itemsTail xs ++ (ws2 ++ c))) := by
+      unfold delimiter
+      simp only [itemsTail, List.append_assoc, List.cons_append]
+      rw [space_absorbs a _ hx.1]
+      simp only [skipSpace]
+      have : isSpace ',' = false := by decide
+      simp only [this, Bool.false_eq_true, if_false]
+      rw [space_absorbs b _ hx.2.1, skip_item it hx.2.2]
+    have hop := item_reads it hx.2.2 (itemsTail xs ++ (ws2 ++ c)) (items_after xs hxs ws2 c hws2 hc)
+    simp only [sepTail, hdel, hop]
+    rw [ih hxs ws2 c hws2 hc g (it.val :: acc) (by simp only [List.length_cons] at hf; omega)]
+    simp
+
+theorem opList_items (it : Item) (hg : it.good) (more : List (Str × Str × Item)) (hm : itemsOk more)
+    (ws2 c : Str) (hws2 : blanks ws2) (hc : lineEnd c) :
+    opList (it.text ++ (itemsTail more ++ (ws2 ++ c))) = .ok (it.val :: more.map (fun x => x.2.2.val)) (ws2 ++ c) := by
+  have hop := item_reads it hg (itemsTail more ++ (ws2 ++ c)) (items_after more hm ws2 c hws2 hc)
+  unfold opList sepList
+  simp only [hop]
+  rw [sepTail_items more hm ws2 c hws2 hc _ [it.val] (by
+    have := items_len more
+    simp only [List.length_append]
+    omega)]
+  simp
+
+/-- **An instruction whose operands are registers and numbers** — any mnemonic or macro name,
+    indented or not; registers written `r`/`R`, numbers in any spelling `e_const` reads (decimal,
+    `0x`, `$`, `0b`, octal); any blanks before and after every comma; any blanks and any comment
+    (or nothing) at the end — is that operation with exactly those operands -/
+theorem operand_instruction_line (ws1 n wsA : Str) (it : Item) (more : List (Str × Str × Item)) (ws2 c : Str)
+    (hws1 : blanks ws1) (hn : isName n) (hwsA : blanks wsA) (hA : wsA ≠ []) (hg : it.good) (hm : itemsOk more)
+    (hws2 : blanks ws2) (hc : lineEnd c) :
+    line (ws1 ++ (n ++ (wsA ++ (it.text ++ (itemsTail more ++ (ws2 ++ c)))))) =
+      .ok (.codeLine none (opOfWord (lower n)) (it.val :: more.map (fun x => x.2.2.val))) := by
+  obtain ⟨w, ws, rfl⟩ : ∃ w ws, wsA = w :: ws := by
+    cases wsA with
+    | nil => exact absurd rfl hA
+    | cons w ws => exact ⟨w, ws, rfl⟩
+  have hw : isSpace w = true := hwsA w (by simp)
+  have hwi : isIdentChar w = false ∧ w ≠ ':' := by
+    simp only [isSpace, Bool.or_eq_true, beq_iff_eq] at hw
+    rcases hw with rfl | rfl <;> decide
+  have hol := opList_items it hg more hm ws2 c hws2 hc
+  have hsr := skip_item it hg (itemsTail more ++ (ws2 ++ c))
+  generalize hR : it.text ++ (itemsTail more ++ (ws2 ++ c)) = R at hol hsr ⊢
+  have hth : ∀ y, ((w :: ws) ++ R).head? = some y → isIdentChar y = false := by
+    intro y hy; simp at hy; subst hy; exact hwi.1
+  have hid : identText (n ++ ((w :: ws) ++ R)) = some (n, (w :: ws) ++ R) := identText_name n _ hn hth
+  have hlab : label (ws1 ++ (n ++ ((w :: ws) ++ R))) = none := by
+    cases ws1 with
+    | nil =>
+      simp only [List.nil_append, label, hid]
+      split
+      · rename_i heq; simp only [Option.some.injEq, Prod.mk.injEq, List.cons_append, List.cons.injEq] at heq; exact absurd heq.2.1 hwi.2
+      · rfl
+    | cons v vs =>
+      have hv : isSpace v = true := hws1 v (by simp)
+      have : isIdentStart v = false := by
+        simp only [isSpace, Bool.or_eq_true, beq_iff_eq] at hv
+        rcases hv with rfl | rfl <;> decide
+      simp [label, identText, this]
+  have hsk : skipSpace (ws1 ++ (n ++ ((w :: ws) ++ R))) = n ++ ((w :: ws) ++ R) := by
+    rw [space_absorbs ws1 _ hws1, skip_name n _ hn]
+  have hop := operation_name n ((w :: ws) ++ R) hn hth
+  have hsA : skipSpace ((w :: ws) ++ R) = R := by
+    rw [space_absorbs (w :: ws) _ hwsA]; exact hsr
+  have hst := skip_tail ws2 c hws2 hc
+  unfold line
+  simp only [optLabel, hlab]
+  simp only [hsk]
+  rw [directive_name n _ hn]
+  simp only [hop]
+  simp only [hsA]
+  simp only [hol]
+  simp only [hst]
+  rcases hc with rfl | ⟨_, hcom⟩
+  · simp [comment]
+  · simp only [hcom]; simp
+
+/-! the spellings of `radix_irrelevant` are number texts -/
+
+theorem numText_dec (cs : Numeral) (hd : ∀ p ∈ cs, p.2 < 10) (hfit : value 10 cs < 2 ^ 63)
+    (hlead : (∃ u, cs = [(u, 0)]) ∨ ∃ p ps, cs = p :: ps ∧ p.2 ≠ 0) : NumText (text cs) (value 10 cs) := by
+  refine ⟨?_, fun rest hr => dec_reads cs rest hd hr hfit hlead⟩
+  have hne : ∃ p ps, cs = p :: ps := by
+    rcases hlead with ⟨u, rfl⟩ | ⟨p, ps, rfl, _⟩
+    · exact ⟨_, _, rfl⟩
+    · exact ⟨_, _, rfl⟩
+  obtain ⟨p, ps, rfl⟩ := hne
+  exact ⟨digitChar p.1 p.2, text ps, rfl, Or.inl (isDec_digitChar p.1 p.2 (hd p (by simp)))⟩
+
+theorem numText_hex (cs : Numeral) (hne : cs ≠ []) (hd : ∀ p ∈ cs, p.2 < 16) (hfit : value 16 cs < 2 ^ 63) :
+    NumText ('0' :: 'x' :: text cs) (value 16 cs) :=
+  ⟨⟨'0', 'x' :: text cs, rfl, Or.inl (by decide)⟩, fun rest hr => by
+    have := hex_reads cs rest hne hd hr hfit
+    simpa using this⟩
+
+theorem numText_dollar (cs : Numeral) (hne : cs ≠ []) (hd : ∀ p ∈ cs, p.2 < 16) (hfit : value 16 cs < 2 ^ 63) :
+    NumText ('$' :: text cs) (value 16 cs) :=
+  ⟨⟨'$', text cs, rfl, Or.inr rfl⟩, fun rest hr => by
+    have := dollar_reads cs rest hne hd hr hfit
+    simpa using this⟩
+
+/-! non-vacuity: ` LDI r16 , 0x1F // c` -/
+example : line ([' '] ++ (['L', 'D', 'I'] ++ ([' '] ++ ((Item.reg false 16).text ++
+      (itemsTail [([' '], [' '], Item.num ('0' :: 'x' :: text [(false, 1), (true, 15)]) (value 16 [(false, 1), (true, 15)]))] ++ ([' '] ++ ['/', '/', 'c'])))))) =
+    .ok (.codeLine none (opOfWord (lower ['L', 'D', 'I']))
+      [IOp.r8 16, IOp.e (.const ((value 16 [(false, 1), (true, 15)] : Nat) : Int))]) :=
+  operand_instruction_line _ _ _ _ _ _ _ (by unfold blanks; decide) ⟨'L', ['D', 'I'], rfl, by decide, by decide⟩
+    (by unfold blanks; decide) (by decide) (by unfold Item.good; decide)
+    (by
+      intro x hx
+      simp only [List.mem_singleton] at hx
+      subst hx
+      exact ⟨by unfold blanks; decide, by unfold blanks; decide, numText_hex _ (by decide) (by decide) (by decide)⟩)
+    (by unfold blanks; decide) (Or.inr ⟨Or.inr rfl, rfl⟩)
+example : value 16 [(false, 1), (true, 15)] = 31 ∧ text [(false, 1), (true, 15)] = ['1', 'F'] := by decide
+
+end Numbers
+
 /-! non-vacuity: 26 in the five spellings, followed by a comma -/
 example : eConst "26,".toList = some (26, [',']) ∧ eConst "0x1A,".toList = some (26, [',']) ∧
     eConst "$1a,".toList = some (26, [',']) ∧ eConst "0b11010,".toList = some (26, [',']) ∧
